@@ -202,8 +202,47 @@ pub fn run_builtin_totality(e: &Engine, rec: &Recorder) {
     for (ri, root) in e.cat.roots.iter().enumerate() {
         let entry = &e.entries[ri];
         let (Some(rj), Some(rq)) = (entry.run_json, entry.run_query) else { continue };
-        let mut payloads: Vec<Doc> = vec![];
+        let mut payloads: Vec<(Src, Doc)> = vec![];
         for b in g.bases(&root.ty).into_iter().take(4) {
+            // non-finite floats (only the second value source can present them) at every leaf in
+            // turn and at all leaves at once: whatever is reported about them has to be rendered
+            {
+                fn leaves(d: &Doc, cur: &mut Loc, out: &mut Vec<Loc>) {
+                    match d {
+                        Doc::Obj(m) => {
+                            for (k, v) in m {
+                                cur.push(Step::Key(k.clone()));
+                                leaves(v, cur, out);
+                                cur.pop();
+                            }
+                        }
+                        Doc::Seq(v) => {
+                            for (i, x) in v.iter().enumerate() {
+                                cur.push(Step::Index(i));
+                                leaves(x, cur, out);
+                                cur.pop();
+                            }
+                        }
+                        _ => out.push(cur.clone()),
+                    }
+                }
+                let mut ls = vec![];
+                leaves(&b, &mut vec![], &mut ls);
+                for nf in [f64::NAN, f64::INFINITY, f64::NEG_INFINITY] {
+                    for l in ls.iter().take(24) {
+                        let mut d = b.clone();
+                        *d.resolve_mut(l).unwrap() = Doc::Float(nf);
+                        payloads.push((Src::Ov, d));
+                    }
+                    let mut d = b.clone();
+                    for l in &ls {
+                        *d.resolve_mut(l).unwrap() = Doc::Float(nf);
+                    }
+                    payloads.push((Src::Ov, d));
+                    payloads.push((Src::Ov, Doc::Seq(vec![Doc::Float(nf)])));
+                    payloads.push((Src::Ov, Doc::Obj(vec![("zz".into(), Doc::Float(nf))])));
+                }
+            }
             // positions of objects and of string leaves
             fn walk(d: &Doc, cur: &mut Loc, objs: &mut Vec<Loc>, strs: &mut Vec<Loc>) {
                 match d {
@@ -234,32 +273,32 @@ pub fn run_builtin_totality(e: &Engine, rec: &Recorder) {
                     if let Some(Doc::Obj(m)) = d.resolve_mut(o) {
                         m.push((s.clone(), Doc::Int(1)));
                     }
-                    payloads.push(d);
+                    payloads.push((Src::Json, d));
                 }
                 for l in strs.iter().take(3) {
                     let mut d = b.clone();
                     *d.resolve_mut(l).unwrap() = Doc::Str(s.clone());
-                    payloads.push(d);
+                    payloads.push((Src::Json, d));
                 }
                 if objs.is_empty() && strs.is_empty() {
-                    payloads.push(Doc::Str(s.clone()));
+                    payloads.push((Src::Json, Doc::Str(s.clone())));
                 }
             }
-            payloads.push(b);
+            payloads.push((Src::Json, b));
         }
-        for d in payloads {
+        for (src, d) in payloads {
             states += 1;
             for (name, run) in [("JsonError", rj), ("QueryParamError", rq)] {
                 execs += 1;
                 crate::rec::begin(&Script::keep_going()); // "code under test is running" for the panic hook
-                let panicked = std::panic::catch_unwind(|| run(&d)).is_err();
+                let panicked = std::panic::catch_unwind(|| run(src, &d)).is_err();
                 let _ = crate::rec::end();
                 if panicked {
                     rec.violation(Violation {
                         property: "C12".into(),
                         subject: format!("{} with {name}", ty_str(&root.ty, e.cat)),
-                        message: format!("deserialize::<_, _, {name}> panicked\n  payload: {}", d.text()),
-                        replay: json!({"kind": "builtin-totality", "type": ty_str(&root.ty, e.cat), "error_type": name, "payload": crate::evidence::doc_to_tagged(&d)}),
+                        message: format!("deserialize::<_, _, {name}> panicked\n  payload: {} (source {src:?})", d.text()),
+                        replay: json!({"kind": "builtin-totality", "root": ri, "type": ty_str(&root.ty, e.cat), "error_type": name, "source": format!("{src:?}"), "payload": crate::evidence::doc_to_tagged(&d)}),
                     });
                     break;
                 }
@@ -267,5 +306,5 @@ pub fn run_builtin_totality(e: &Engine, rec: &Recorder) {
         }
     }
     rec.add_counts(states, states, execs);
-    rec.set_extra("payloads_run_with_JsonError_and_QueryParamError_(long_non_ascii_keys_and_strings)", json!(states));
+    rec.set_extra("payloads_run_with_JsonError_and_QueryParamError_(long_non_ascii_keys_and_strings,_non_finite_floats_at_every_leaf)", json!(states));
 }
